@@ -108,8 +108,13 @@ def run_one(m):
 
 
 def main():
-    args = [a for a in sys.argv[1:] if not a.startswith("--")]
-    jobs = int(sys.argv[sys.argv.index("--jobs") + 1]) if "--jobs" in sys.argv else 4
+    argv = sys.argv[1:]
+    jobs = 4
+    if "--jobs" in argv:
+        k = argv.index("--jobs")
+        jobs = int(argv[k + 1])
+        del argv[k:k + 2]
+    args = argv
     sel = [m for m in MUTANTS if not args or any(a in m[0] for a in args)]
     os.makedirs(SCRATCH, exist_ok=True)
     with ThreadPoolExecutor(max_workers=jobs) as ex:
